@@ -329,6 +329,15 @@ func (m *StateMachine) handleHeightCommitted(ctx context.Context, rlc *tsi.Round
 	// Don't read from the channel again, especially since it's closed.
 	rlc.HeightCommitted = nil
 
+	if rlc.S != tsi.StepCommitWait && rlc.S != tsi.StepAwaitingFinalization {
+		// The mirror committed this height while we are still voting in it:
+		// we are lagging, and the mirror runs concurrently with us.
+		// There is no commit wait to cut short yet, and the timer of the current step must keep running.
+		// Remember the signal, so that beginCommit does not start a commit wait in this round.
+		rlc.CommitWaitElapsed = true
+		return true
+	}
+
 	rlc.CommitWaitElapsed = true
 
 	if rlc.CancelTimer != nil {
@@ -1534,8 +1543,14 @@ func (m *StateMachine) beginCommit(
 ) (ok bool) {
 	defer trace.StartRegion(ctx, "beginCommit").End()
 
-	rlc.S = tsi.StepCommitWait
-	rlc.StepTimer, rlc.CancelTimer = m.rt.CommitWaitTimer(ctx, rlc.H, rlc.R)
+	if rlc.CommitWaitElapsed {
+		// The mirror already told us, earlier in this round, that the height is committed,
+		// so there is nothing to wait for except the finalization.
+		rlc.S = tsi.StepAwaitingFinalization
+	} else {
+		rlc.S = tsi.StepCommitWait
+		rlc.StepTimer, rlc.CancelTimer = m.rt.CommitWaitTimer(ctx, rlc.H, rlc.R)
+	}
 
 	idx := slices.IndexFunc(vrv.ProposedHeaders, func(ph tmconsensus.ProposedHeader) bool {
 		return string(ph.Header.Hash) == vrv.VoteSummary.MostVotedPrecommitHash
